@@ -82,6 +82,33 @@ def small_extent_triples(seed, quick):
     return out
 
 
+def interrupted_triples(seed, quick):
+    """triples whose FIRST LEG IS INTERRUPTED (SIGINT at a point inside the main loop, any part of the body: maps, output block,
+    loop head); the continuation starts from the last record of the file the program leaves and is compared with the
+    uninterrupted run over (tag of that record) + n2 steps.  Own PRNG.  RenormalizeCharge -1 (bit equality) and 0."""
+    import random
+    rng = random.Random(seed * 9349 + 29)
+    out = []
+    for i in range(8 if quick else 60):
+        n = rng.choice([16, 20, 24])
+        steps = rng.choice([8, 16])
+        n1 = rng.randint(3, 2 * steps)
+        n2 = rng.randint(1, steps)
+        outstep = rng.choice([1, 2, 3, n1, n1 + 1])
+        imp = rng.choice(["none", "rw", "pp", "none"])
+        kw = dict(n=n, steps=steps, outstep=outstep, save=1, currents=[rng.choice([1e-4, 3e-4, 5e-4])], renorm=rng.choice([-1, -1, -1, 0]),
+                  shiftx=rng.choice([0, 0, 1]), shifty=rng.choice([0, 0, -1]), padding=rng.choice([2, 4]))
+        if imp == "none":
+            kw.update(gap=0)
+        elif imp == "rw":
+            kw.update(gap=0.03, usecsr=0, wallcond=3.7e7)
+        else:
+            kw.update(gap=0.03)
+        out.append(dict(cid="i%d" % i, kw=kw, n1=n1, n2=n2, j=None, kstart=None, imp=imp, tags1=None,
+                        sigint=dict(frac=rng.random(), at=None)))
+    return out
+
+
 def rot_of(k, steps):
     return repr(k / float(steps))          # dyadic: exact in binary32 and in decimal
 
@@ -101,9 +128,51 @@ def run_triple(ctx, tg, t, dis):
         case = dict(t)
         f1, f2, f3 = (os.path.join(wd, x) for x in ("leg1.h5", "leg2.h5", "single.h5"))
         c1 = hc.Cfg(rot=rot_of(t["n1"], steps), **kw)
+        env1, intr = None, ""
+        if t.get("sigint") is not None:
+            # INTERRUPTED first leg (strengthening st3weak, seed C11-I): SIGINT raised by the VERIF_POINT hook at a point inside the
+            # main loop; the file the program leaves is then continued from its last record (whatever step tag it carries) and
+            # compared with the uninterrupted run over that tag + n2 steps.  The point is fixed by its position in the list of
+            # loop points of an uninterrupted trace of the same leg (replay: the recorded index).
+            sg = t["sigint"]
+            if sg.get("at") is None:
+                tr = os.path.join(wd, "trace.txt")
+                rc, so, se = hc.run_inovesa(tg, c1.args(os.path.join(wd, "trace.h5"), wd), timeout=300, env_extra={"INOVESA_VERIF_TRACE": tr})
+                labels = open(tr).read().split() if os.path.exists(tr) else []
+                first = next((i for i, l in enumerate(labels) if l.startswith("loop:")), None)
+                cands = [i for i, l in enumerate(labels) if first is not None and i >= first and (l.startswith("loop:") or l.startswith("out:"))]
+                if rc != 0 or not cands:
+                    dis.append(dict(case=case, detail="no trace of loop points from the VERIF_POINT hook (rc=%s, %d labels)" % (rc, len(labels)),
+                                    sig=dict(kind="restart", stage="correspondence", what="no-trace")))
+                    return
+                i = cands[min(len(cands) - 1, int(sg["frac"] * len(cands)))]
+                sg = dict(sg, at=i, label=labels[i], loop_point="%d of %d" % (cands.index(i), len(cands)))
+                case["sigint"] = t["sigint"] = sg
+            env1 = {"INOVESA_VERIF_SIGINT_AT": str(sg["at"])}
+            intr = " [first leg interrupted by SIGINT at executed point #%d (%s)]" % (sg["at"], sg.get("label", "?"))
+        rc, so, se = hc.run_inovesa(tg, c1.args(f1, wd), timeout=300, env_extra=env1)
+        if rc != 0 or not os.path.exists(f1):
+            ctx.violation("impl-oracle", "inovesa failed (rc=%s) on %s%s" % (rc, os.path.basename(f1), intr), case=case,
+                          observed=(so + se)[-500:], sig=dict(kind="restart", clause="run"))
+            return
+        if t.get("sigint") is not None:
+            h1 = hc.h5cat(tg, f1, only=["/PhaseSpace"])
+            axi = h1.values("/PhaseSpace/axis0") if not h1.error else []
+            if not axi:
+                ctx.violation("impl-oracle", "the file of an interrupted run holds no phase space to continue from" + intr, case=case,
+                              observed=(so + se)[-300:], sig=dict(kind="restart", clause="run"))
+                return
+            ks = int(round(axi[-1] * steps))
+            if hc.f32(ks / float(steps)) != axi[-1]:
+                dis.append(dict(case=case, detail="last time tag of the interrupted file is not a whole number of steps: %r" % axi[-1],
+                                sig=dict(kind="restart", stage="correspondence", what="interrupted-tag")))
+                return
+            t = dict(t, kstart=ks, j=None)
+            case["kstart"] = ks
+            ctx.count("interrupted-first-leg:stopped-at-step-%s" % ("n1" if ks >= t["n1"] else "<n1"))
         c2 = hc.Cfg(rot=rot_of(t["n2"], steps), start=(f1, t["j"]), **kw)
         c3 = hc.Cfg(rot=rot_of(t["kstart"] + t["n2"], steps), **kw)
-        for c, f in ((c1, f1), (c2, f2), (c3, f3)):
+        for c, f in ((c2, f2), (c3, f3)):
             rc, so, se = hc.run_inovesa(tg, c.args(f, wd), timeout=300)
             if rc != 0 or not os.path.exists(f):
                 ctx.violation("impl-oracle", "inovesa failed (rc=%s) on %s" % (rc, os.path.basename(f)), case=case,
@@ -132,6 +201,8 @@ def run_triple(ctx, tg, t, dis):
         mx = max(abs(x) for x in chosen) or 1.0
         r = kw["renorm"]
         sig = dict(kind="restart", renorm=("neg" if r < 0 else "zero" if r == 0 else "pos"), imp=t["imp"])
+        if t.get("sigint") is not None:
+            sig["interrupted_first_leg"] = True
         # ---- start state (C11_read_back_exact + C11_start_state)
         if r < 0:
             if first != chosen:
@@ -167,7 +238,7 @@ def run_triple(ctx, tg, t, dis):
         if r < 0:
             if final2 != final3:
                 nd = sum(1 for a, b in zip(final2, final3) if a != b)
-                ctx.violation("impl-oracle", "continued run and uninterrupted run end in different phase spaces although RenormalizeCharge < 0 (%d cells differ)" % nd,
+                ctx.violation("impl-oracle", "continued run and uninterrupted run end in different phase spaces although RenormalizeCharge < 0 (%d cells differ)%s" % (nd, intr),
                               case=case, observed=final2[:6], expected=final3[:6], sig=dict(sig, clause="continuation"))
         else:
             # rounding bound: one relative perturbation of <= 8 ulp at the joint, carried through n2 steps of
@@ -175,7 +246,7 @@ def run_triple(ctx, tg, t, dis):
             tol = (16 + 64 * t["n2"]) * EPS * max(max(abs(x) for x in final3), mx)
             bad = max(abs(a - b) for a, b in zip(final2, final3))
             if bad > tol:
-                ctx.violation("impl-oracle", "continued run and uninterrupted run differ beyond rounding", case=case,
+                ctx.violation("impl-oracle", "continued run and uninterrupted run differ beyond rounding" + intr, case=case,
                               observed=bad, expected="<= %g" % tol, sig=dict(sig, clause="continuation"))
         ax2, ax3 = h2.values("/PhaseSpace/axis0"), h3.values("/PhaseSpace/axis0")
         if ax2[-1] != hc.f32(t["n2"] / float(steps)) or ax3[-1] != hc.f32((t["kstart"] + t["n2"]) / float(steps)):
@@ -324,6 +395,8 @@ def run(ctx):
     for t in small_extent_triples(ctx.seed, ctx.quick()):
         run_triple(ctx, tg, t, dis)
         ctx.count("extent:%s" % t["extent"])
+    for t in interrupted_triples(ctx.seed, ctx.quick()):
+        run_triple(ctx, tg, t, dis)
     ctx.extra["correspondence_disagreements"] = len(dis)
     ctx.assumptions += ["physics kernels are abstract in the continuation theorems; bit-equality for RenormalizeCharge < 0 and the rounding bound otherwise are checked on the binary",
                         "RenormalizeCharge > 0 not dividing the start tag: the model refutes equality (C11_continuation_nondividing_refuted); not compared on the implementation",
